@@ -430,14 +430,24 @@ theorem c18_http_stop_returns_when_settled (as : List Act) :
     simp [run, step, hsp, hret, hgr, hd, hsw, hon, hcc, hwg, hap]
 
 
-/-- **The HTTP engine's Stop / Shutdown returns — the fair-schedule half** (repaired tree). From any reachable state in
-    which the listeners are closed, `closeAllConns` has run, the context is live, and every conn's socket is closed
-    with no close job dropped (= the state right after the sweep when no conn is still outside the map on its way in —
-    the excluded case is the acceptor caught mid-add-path, cf. the known finding on the core engine), let the conns
-    take their own steps in **any** interleaving (`as`: conn steps only — nothing is accepted any more) **until none has
-    a step left** (the fairness hypothesis, stated on the schedule; by `c18_http_conn_steps_bounded` that is at most 11
-    steps per conn). Then every conn is settled, the map is empty, and the remaining statements of Stop / Shutdown run
-    to the end: the result is nil. -/
+/-- **The HTTP engine's Stop / Shutdown returns — for one kind of schedule, from an assumed start** (repaired tree only:
+    `fixed`). Exactly what is stated, no more:
+
+    * **Start (assumed):** a reachable state with `sp = sweeping` (listeners closed), `ret = none`, `sweeps ≥ 1` and
+      `Swept` = *every* conn's socket closed and no close job dropped. `Swept` is a **hypothesis**: no lemma derives it
+      from the sweep step (`c18_http_sweep_closes_all` covers the conns that are in the map only; a conn still outside
+      the map on its way in — the acceptor mid-add-path — is not closed by the sweep and is thereby excluded).
+    * **Continuation (restricted):** `as` consists of conn steps only (`∀ x ∈ as, ∃ i a, x = .conn i a`): no accept, no
+      further sweep or tick, and no `ctxExpire` — Shutdown's context stays live throughout.
+    * **Fairness and quiescence are hypotheses on the schedule:** the end state `s1` is assumed to have no conn-level
+      step (other than `close`) enabled. That such a schedule exists / is reached is not proved here (per conn at most
+      11 own steps: `c18_http_conn_steps_bounded`).
+    * **Conclusion:** every conn of `s1` is settled, `online s1 = 0`, and the run `[tick, coreBegin, coreWaited,
+      coreFinish]` ends with `ret = nil`.
+    * **The core engine's Stop is three abstract acts here** (`coreBegin`, `coreWaited`, `coreFinish`); there is no
+      refinement to `StopM`, so `c18_stop_returns` (core engine) and its exclusions are neither used nor inherited.
+
+    The prefix stopFlag → stopListeners → sweep is `c18_http_stop_order` / `c18_http_sweep_closes_all`. -/
 theorem c18_http_stop_returns_fair (as0 as : List Act) :
     let s := run fixed init as0
     s.sp = .sweeping → s.ret = .none → s.sweeps ≥ 1 → Swept s →
